@@ -220,6 +220,10 @@ def run(P, R, L):
     from .c02 import ord5_manifest_before_current, ord4_current_switch
     ord5_manifest_before_current(P, R, L)
     ord4_current_switch(P, R, L)
+    R.clause("GRD-20", "an existing database is never re-initialised because CURRENT could not be opened for a reason other than NotFound")
+    K.grd20_create_only_when_missing(P, R, L)
+    R.clause("GRD-21", "a failed manifest write removes only a manifest created by that very call, never the live one CURRENT names")
+    K.grd21_manifest_cleanup(P, R, L)
     R.not_decided += ["that a write which returned Err is all-or-nothing after reopen (runtime content)",
                       "errors swallowed inside dependencies (std, integer_encoding, snap)"]
     R.assumptions += ["`?` lowers to Try::branch + FromResidual::from_residual into the return place",
